@@ -443,3 +443,7 @@ mod test {
         assert!(input.next_is_document_indicator());
     }
 }
+
+#[cfg(kani)]
+#[path = "/verif/kani/direct/input_str_harness.rs"]
+pub(crate) mod verif_harness;
